@@ -1,15 +1,20 @@
 mod core;
 mod driver;
 mod explore;
+mod drops;
+mod expert;
 mod graph;
+mod limits;
+mod maps;
+mod memo;
+mod pkmaps;
 mod plan;
+mod vars;
 mod supervisor;
 mod val;
 
 use crate::core::*;
 use explore::*;
-use graph::families;
-use graph::world::GraphWorld;
 use std::time::Instant;
 
 fn main() {
@@ -42,45 +47,45 @@ fn main() {
 }
 
 fn dev(args: &[String]) {
-    let which = args.first().map(|s| s.as_str()).unwrap_or("sibling");
-    let depth: usize = args.get(1).and_then(|s| s.parse().ok()).unwrap_or(6);
-    let cfg = Cfg {
-        profile: profile(),
-        handler_order: Some(true),
-        armed: vec![],
+    // hx dev <world> <family[#unit]> <depth> [armed=C01,C02] [noprune] [order=desc] [congruence=N] [split]
+    let world: &'static str = Box::leak(args.first().cloned().unwrap_or_else(|| "graph".into()).into_boxed_str());
+    let which = args.get(1).map(|s| s.as_str()).unwrap_or("c01/catalogue");
+    let depth: usize = args.get(2).and_then(|s| s.parse().ok()).unwrap_or(6);
+    let (fam, only) = match which.split_once('#') {
+        Some((f, i)) => (f, Some(i.parse::<usize>().unwrap())),
+        None => (which, None),
     };
-    let opts = Opts {
-        max_depth: depth,
-        prune: true,
-        max_states: 2_000_000,
-        deadline: None,
-        congruence_depth: 3,
-    };
-    let progs: Vec<graph::prog::Prog> = if which.contains('/') {
-        let (fam, idx) = match which.split_once('#') {
-            Some((f, i)) => (f, Some(i.parse::<usize>().unwrap())),
-            None => (which, None),
-        };
-        let all = families::family(fam, plan::Tier::Quick);
-        match idx {
-            Some(i) => vec![all[i].clone()],
-            None => all,
+    let mut job = plan::JobDef::new(world, fam, profile(), depth);
+    job.congruence_depth = 2;
+    let tier = plan::Tier::Quick;
+    for a in args.iter().skip(3) {
+        if a == "noprune" {
+            job.prune = false;
+        } else if a == "split" {
+            job.split_first = true;
+        } else if let Some(x) = a.strip_prefix("armed=") {
+            job.armed = x.split(',').filter_map(plan::static_property).collect();
+        } else if let Some(x) = a.strip_prefix("order=") {
+            job.handler_order = Some(x != "desc");
+        } else if let Some(x) = a.strip_prefix("congruence=") {
+            job.congruence_depth = x.parse().unwrap();
+        } else if let Some(x) = a.strip_prefix("maxstates=") {
+            job.max_states = x.parse().unwrap();
         }
-    } else if let Some(n) = which.strip_prefix("grammar") {
-        let n: usize = n.parse().unwrap();
-        families::grammar(&families::Menu::core(), 2, n)
-    } else {
-        families::catalogue().into_iter().filter(|(n, _)| *n == which || which == "all").map(|(_, p)| p).collect()
-    };
+    }
+    let units = plan::resolve_units(&job, tier);
     let t0 = Instant::now();
     let mut stats = Stats::new();
     let marker = Marker::none();
-    for (i, p) in progs.iter().enumerate() {
-        bfs::<GraphWorld>(p, &cfg, &opts, (0, i as u32), &marker, &mut stats);
+    for u in 0..units {
+        if only.map_or(true, |o| o == u) {
+            plan::run_unit(&job, 0, u, tier, None, &marker, &mut stats);
+        }
     }
     println!(
-        "profile={} programs={} states={} transitions={} replay_steps={} pruned={} depth={}..{} exhausted={} traces={} congruence={} wall={:.2}s",
+        "profile={} units={} programs={} states={} transitions={} replay_steps={} pruned={} depth={}..{} exhausted={} traces={} congruence={} wall={:.2}s",
         profile(),
+        units,
         stats.programs,
         stats.states,
         stats.transitions,
@@ -102,14 +107,18 @@ fn dev(args: &[String]) {
     found.sort_by_key(|f| (f.history.len(), f.viol.sig.clone()));
     for f in found {
         println!(
-            "--- {} x{} len={}\n    {}\n    prog={}\n    hist={}\n    {}",
+            "--- [{}] {} x{} len={}\n    {}\n    prog={}\n    hist={}\n    {}",
+            f.viol.property,
             f.viol.sig,
             f.occurrences,
             f.history.len(),
             f.viol.detail,
-            serde_json::to_string(&f.prog.get("nodes")).unwrap(),
+            serde_json::to_string(&f.prog).unwrap(),
             serde_json::to_string(&f.history).unwrap(),
             f.explain
         );
+    }
+    if let Some(s) = stats.samples.first() {
+        println!("sample: {}", serde_json::to_string(s).unwrap());
     }
 }
